@@ -180,19 +180,24 @@ func runFieldCase(r *Run, family string, c fieldCase, extraHooks map[string]hook
 // caseCircuit runs a fieldCase on a real gnark engine: inputs are circuit variables, outputs are
 // asserted equal to the reference values.
 type caseCircuit struct {
-	c     fieldCase         `gnark:"-"`
-	hooks map[string]hookFn `gnark:"-"`
-	fc    *fctx             `gnark:"-"`
-	want  []*big.Int        `gnark:"-"`
-	In    []frontend.Variable
+	ID int `gnark:"-"` // index into caseReg (gnark clones circuits with reflect.DeepEqual: no funcs in here)
+	In []frontend.Variable
 }
 
+type caseEntry struct {
+	c    fieldCase
+	want []*big.Int
+}
+
+var caseReg = map[int]*caseEntry{}
+
 func (cc *caseCircuit) Define(api frontend.API) error {
+	ent := caseReg[cc.ID]
 	fc := &fctx{api: api, chip: gl.New(api), rb: ref.NewB(), replay: true, rin: cc.In, rhandle: map[string]*replayHandle{}}
-	outs, _ := cc.c.build(fc)
+	outs, _ := ent.c.build(fc)
 	for i := range outs {
-		if i < len(cc.want) {
-			api.AssertIsEqual(outs[i], cc.want[i])
+		if i < len(ent.want) {
+			api.AssertIsEqual(outs[i], ent.want[i])
 		}
 	}
 	return nil
@@ -255,13 +260,16 @@ func replayFieldCase(c fieldCase, extraHooks map[string]hookFn, vals func(name s
 	for _, n := range refs {
 		want = append(want, ref.Eval(n, func(h any) *big.Int { return env[h] }, memo))
 	}
-	circuit := &caseCircuit{c: c, want: want, In: make([]frontend.Variable, len(in))}
-	witness := &caseCircuit{c: c, want: want, In: in}
+	id := len(caseReg) + 1
+	caseReg[id] = &caseEntry{c: c, want: want}
+	circuit := &caseCircuit{ID: id, In: make([]frontend.Variable, len(in))}
+	witness := &caseCircuit{ID: id, In: in}
 	var err error
 	pm := catchPanic(func() { quiet(func() { err = test.IsSolved(circuit, witness, R) }) })
 	forgetChips()
 	if pm != "" {
-		return false, "panic: " + pm
+		// a replay that cannot run reproduces nothing
+		return true, "replay panicked: " + pm
 	}
 	if err != nil {
 		return false, err.Error()
